@@ -26,8 +26,26 @@ Dec(n) == ToString(n)
 \* milliseconds are always three digits
 Pad3(ms) == IF ms < 10 THEN "00" \o Dec(ms) ELSE IF ms < 100 THEN "0" \o Dec(ms) ELSE Dec(ms)
 
+(***************************************************************************)
+(* The tag.  A provider hands over whatever the ammo source carries: the   *)
+(* uri / uripost / raw formats keep everything after the first blank of    *)
+(* the line (a TAB inside the tag survives), http/json and grpc/json ammo  *)
+(* and scenario names are arbitrary JSON / config strings (TAB, LF, CR).   *)
+(* TAB separates the columns and LF the lines of phout, so neither may     *)
+(* reach the tag column: each TAB, LF, CR is written as one blank.         *)
+(* Strings are opaque to TLC, so a tag that contains such characters       *)
+(* travels as `tagp`, a sequence of atoms: plain text pieces and the       *)
+(* symbolic atoms "<TAB>" "<LF>" "<CR>" (the driver renders them to the    *)
+(* real characters; this module says what must come out).                  *)
+(***************************************************************************)
+Delimiters == {"<TAB>", "<LF>", "<CR>"}
+TagAtomText(a) == IF a \in Delimiters THEN " " ELSE a
+RECURSIVE TagAtomsText(_)
+TagAtomsText(as) == IF as = <<>> THEN "" ELSE TagAtomText(Head(as)) \o TagAtomsText(Tail(as))
+TagText(s) == IF "tagp" \in DOMAIN s /\ s.tagp # <<>> THEN TagAtomsText(s.tagp) ELSE s.tag
+
 \* the tag column: the tag itself, plus "#<ammo id>" when ids are enabled
-TagCol(s, ids) == IF ids THEN s.tag \o "#" \o Dec(s.id) ELSE s.tag
+TagCol(s, ids) == IF ids THEN TagText(s) \o "#" \o Dec(s.id) ELSE TagText(s)
 
 (***************************************************************************)
 (* PhoutLine: the columns of the line a sample must produce, as the tuple  *)
